@@ -5,7 +5,7 @@ use crate::gens::{self, gcd_big};
 use crypto_bigint::modular::{MontyForm, MontyParams, SafeGcdInverter};
 use crypto_bigint::{Gcd, Int, InvMod, Invert, Inverter, NonZero, Odd, PrecomputeInverter, Uint};
 use num_bigint::BigUint;
-use num_traits::{One, Zero};
+use num_traits::One;
 use subtle::CtOption;
 use vmodel::gen;
 use vmodel::*;
@@ -29,7 +29,6 @@ where
     let m = &md.m;
     let a_big = big(&al);
     let g = gcd_big(&a_big, m);
-    let unit = g.is_one();
     classify(c, &md, acl, &a_big, &g);
     let one = BigUint::one();
     let ar = &a_big % m;
@@ -90,7 +89,6 @@ where
             veq!(r, general, "inv_mod2k({k}) vs inv_mod(2^{k})");
         }
     }
-    let _ = unit;
     Ok(())
 }
 
@@ -295,8 +293,4 @@ where
     chk("MontyFormInverter::invert", p.into())?;
     chk("MontyFormInverter::invert_vartime", pv.into())?;
     Ok(())
-}
-
-pub fn is_zero_big(x: &BigUint) -> bool {
-    x.is_zero()
 }
